@@ -193,6 +193,12 @@ impl Scenario for MecabScenario {
             "B5:%L?[2],%L[0]/%R?[1],%R[0]",
             "B6:lit/%R[1]",
             "B7:%L[0]/lit",
+            // MeCab-style templates without a prefix on one side: their BOS/EOS lines in model.def
+            // become "/x" and "x/" cost lines
+            "%L[0]/%R[0]",
+            "%L?[1]/%R[0]",
+            "%L[0]/%R?[1]",
+            "%L?[2],%L[0]/R:%R[0]",
         ];
         let n_t = 1 + rng.usize(6);
         let mut idx: Vec<usize> = (0..pool.len()).collect();
@@ -282,6 +288,29 @@ impl Scenario for MecabScenario {
                 _ => format!("{}.{:03}", rng.range(-20, 20), rng.below(1000)),
             };
             md.push_str(&format!("{w}\t{t}\n"));
+        }
+        // BOS/EOS lines, as a real model.def has them: "<BOS expansion>/<right expansion>" and
+        // "<left expansion>/<EOS expansion>" (they concern pairs with id 0 only)
+        let bos: Vec<String> = vec!["BOS/EOS".into(), "*".into(), "*".into()];
+        for (lt, rt) in &model.templates {
+            if let Some(b) = expand(lt, 'L', &bos) {
+                for l in 1..model.left.len() {
+                    if let Some(re) = expand(rt, 'R', &model.left[l]) {
+                        if rng.chance(1, 2) && texts.insert(format!("{b}/{re}")) {
+                            md.push_str(&format!("{}.{:02}\t{b}/{re}\n", rng.range(-9, 9), rng.below(100)));
+                        }
+                    }
+                }
+            }
+            if let Some(e) = expand(rt, 'R', &bos) {
+                for r in 1..model.right.len() {
+                    if let Some(le) = expand(lt, 'L', &model.right[r]) {
+                        if rng.chance(1, 2) && texts.insert(format!("{le}/{e}")) {
+                            md.push_str(&format!("{}.{:02}\t{le}/{e}\n", rng.range(-9, 9), rng.below(100)));
+                        }
+                    }
+                }
+            }
         }
         for k in 0..rng.usize(4) {
             md.push_str(&format!("1.5\tB9:nosuch{k}/other\n"));
